@@ -11,7 +11,8 @@ CONSTANTS Fam,        \* name of the grammar family
           Alphabet,   \* input tokens
           MaxLen,     \* inputs of at most this length
           Kinds, Etys, Modes,
-          Chunk, NChunks   \* Init is restricted to cases with index % NChunks = Chunk
+          Chunk, NChunks,  \* Init is restricted to cases with index % NChunks = Chunk
+          HistLen          \* C13: every case is followed by this many further parses through the same parser value
 
 ---------------------------------------------------------------------------
 (* inputs *)
@@ -259,8 +260,14 @@ TemplateFams == {"rec", "lrec", "repT", "pratt", "memoT", "rcvT", "lblT", "drpT"
 Grammars == IF Fam \in TemplateFams THEN Templates(Fam)
             ELSE {g \in UNION {GSz(Fam, n) : n \in 1..MaxSize} : WF(g)}
 
-CaseSet == {[g |-> g, inp |-> x, offs |-> Offs(k, x), kind |-> k, ety |-> e, mode |-> m] :
-              g \in Grammars, x \in Inputs, k \in Kinds, e \in Etys, m \in Modes}
+RECURSIVE InputSeqs(_)
+InputSeqs(n) == IF n = 0 THEN {<<>>} ELSE {Append(s, x) : s \in InputSeqs(n - 1), x \in Inputs}
+CaseSet == IF HistLen = 0
+           THEN {[g |-> g, inp |-> x, offs |-> Offs(k, x), kind |-> k, ety |-> e, mode |-> m] :
+                   g \in Grammars, x \in Inputs, k \in Kinds, e \in Etys, m \in Modes}
+           ELSE {[g |-> g, inp |-> x, offs |-> Offs(k, x), kind |-> k, ety |-> e, mode |-> m,
+                  more |-> h, moffs |-> [i \in DOMAIN h |-> Offs(k, h[i])]] :
+                   g \in Grammars, x \in Inputs, k \in Kinds, e \in Etys, m \in Modes, h \in InputSeqs(HistLen)}
 MCCases == SetToSeq(CaseSet)
 
 MCInit == Init /\ cid % NChunks = Chunk
@@ -270,7 +277,7 @@ MCSpec == MCInit /\ [][MCNext]_vars
 ---------------------------------------------------------------------------
 (* Property invariants *)
 
-X == [toks |-> Toks, offs |-> Case.offs, kind |-> Case.kind, lo |-> 0, hi |-> NTok]
+X == [toks |-> Toks, offs |-> COffs, kind |-> Case.kind, lo |-> 0, hi |-> NTok]
 XOf(fr) == [X EXCEPT !.lo = fr.rng[1], !.hi = fr.rng[2]]
 KfClean == \A s \in DOMAIN kf : IsOpen(s) \/ kf[s] = "off"
 OpenOn(s) == s \in DOMAIN kf /\ kf[s] = "on"
@@ -319,8 +326,8 @@ ResultContract ==
 
 (* C06: the primary error of a failed parse is the furthest failure with  *)
 (* merged expectations (grammars without negative lookahead)              *)
-TotalLen == IF Gapped THEN 3 * NTok ELSE Case.offs[NTok + 1]
-TokStart(i) == IF Gapped THEN GStart(i) ELSE Case.offs[i + 1]        \* start offset of the token after cursor i
+TotalLen == IF Gapped THEN 3 * NTok ELSE COffs[NTok + 1]
+TokStart(i) == IF Gapped THEN GStart(i) ELSE COffs[i + 1]        \* start offset of the token after cursor i
 OffTok(o) == IF \E i \in 0..(NTok - 1) : TokStart(i) = o
              THEN Toks[(CHOOSE i \in 0..(NTok - 1) : TokStart(i) = o) + 1] ELSE ""
 FurthestFailure ==
@@ -356,7 +363,7 @@ SpansIn(v) ==
     [] v[1] = "M" -> SpansIn(v[3])
     [] v[1] = "F" -> SpansIn(v[3]) \cup SpansIn(v[4])
     [] OTHER -> {}
-Boundaries == IF Gapped THEN 0..(3 * NTok) ELSE {Case.offs[i] : i \in DOMAIN Case.offs}
+Boundaries == IF Gapped THEN 0..(3 * NTok) ELSE {COffs[i] : i \in DOMAIN COffs}
 SpansWellFormed ==
   (st.done /\ result.ok /\ KfClean) =>
      \A sp \in SpansIn(result.out) : sp[1] <= sp[2] /\ sp[1] \in Boundaries /\ sp[2] \in Boundaries
@@ -387,13 +394,17 @@ StepBound == st.steps <= 400
 ---------------------------------------------------------------------------
 (* REPLAY: one line per finished behaviour, for the Rust harness *)
 ErrJson(e) == [s |-> e.s, e |-> e.e, found |-> e.found, exp |-> e.exp, cust |-> e.cust, ctxs |-> e.ctxs]
+ResJson(r) == [ok |-> r.ok, out |-> r.out, errs |-> [i \in DOMAIN r.errs |-> ErrJson(r.errs[i])],
+               panic |-> r.panic, insp |-> r.insp, leaked |-> r.leaked]
 ReplayRec ==
-  [cid |-> cid, g |-> G, inp |-> Toks, kind |-> Case.kind, ety |-> Ety, mode |-> TopMode,
+  [cid |-> cid, g |-> G, inp |-> Case.inp, kind |-> Case.kind, ety |-> Ety, mode |-> TopMode,
    kf |-> {s \in DOMAIN kf : kf[s] = "on" /\ ~IsOpen(s)},
-   res |-> [ok |-> result.ok, out |-> result.out, errs |-> [i \in DOMAIN result.errs |-> ErrJson(result.errs[i])],
-            panic |-> result.panic, insp |-> result.insp, leaked |-> result.leaked],
-   obs |-> obs]
-Replay == st.done => PrintT("REPLAY " \o ToJson(ReplayRec))
+   res |-> ResJson(result),
+   obs |-> obs,
+   more |-> IF "more" \in DOMAIN Case THEN Case.more ELSE <<>>,      \* C13: the further inputs of the history ...
+   past |-> [i \in DOMAIN st.past |-> ResJson(st.past[i])]]          \* ... and the results of its earlier parses
+LastRun == st.run = MoreRuns \/ st.panicked
+Replay == (st.done /\ LastRun) => PrintT("REPLAY " \o ToJson(ReplayRec))
 
 ---------------------------------------------------------------------------
 (* Trace validation (implementation -> specification).  The Rust harness   *)
@@ -434,13 +445,20 @@ MatchesMask(m) ==
   /\ MatchObs(m.obs, r.obs, obs)
   /\ (m.insp /\ result.ok) => r.res.insp = result.insp
   /\ (m.leak /\ ~result.panic) => r.res.leaked = result.leaked
+  \* C13: the earlier parses of the history, each compared like a parse of its own
+  /\ ("past" \in DOMAIN r) =>
+       /\ Len(r.past) = Len(st.past)
+       /\ \A i \in DOMAIN st.past :
+            /\ r.past[i].panic = st.past[i].panic /\ r.past[i].ok = st.past[i].ok
+            /\ (m.out /\ st.past[i].ok /\ TopMode = "E") => r.past[i].out = st.past[i].out
+            /\ MatchErrs(m.errs, st.past[i].ok, r.past[i].errs, st.past[i].errs)
 Matches == MatchesMask(Rec[cid].mask)
 FullMask == [out |-> TRUE, errs |-> "all", obs |-> "all", insp |-> TRUE, leak |-> TRUE]
 (* the verdict carries both the match on the fields the property pins and the match on the    *)
 (* full observation (the driver uses the latter to attribute a failed real-only assertion to  *)
 (* a known defect branch)                                                                     *)
 Verdict ==
-  st.done => /\ PrintT(<<"VERDICT", cid, {s \in DOMAIN kf : kf[s] = "on" /\ ~IsOpen(s)}, Matches, MatchesMask(FullMask)>>)
+  (st.done /\ LastRun) => /\ PrintT(<<"VERDICT", cid, {s \in DOMAIN kf : kf[s] = "on" /\ ~IsOpen(s)}, Matches, MatchesMask(FullMask)>>)
              /\ (Matches \/ PrintT("MODEL " \o ToJson(ReplayRec)))
 
 (* compact error traces *)
